@@ -12,6 +12,7 @@
 mod engine;
 mod envelope;
 mod findings;
+mod lawcore;
 mod registry;
 mod runner;
 mod serde_fmt;
@@ -89,6 +90,14 @@ fn real_main(args: &[String]) -> i32 {
             let r = engine.run_case(&ctx, idx);
             println!("{}", serde_json::to_string_pretty(&r).unwrap());
             println!("elapsed {:.3}s", t.elapsed().as_secs_f64());
+            0
+        }
+        "describe" => {
+            let Some(prop) = args.get(2) else { return 2 };
+            let Some(engine) = engine::engine_for(prop) else { return 2 };
+            let ctx = ctx_from(args, prop);
+            let idx: usize = args.get(3).and_then(|s| s.parse().ok()).unwrap_or(0);
+            println!("{}", engine.describe(&ctx, idx));
             0
         }
         "list-cases" => {
@@ -249,6 +258,21 @@ fn selftest_determinism(args: &[String]) -> i32 {
 fn selftest(what: &str, args: &[String]) -> i32 {
     match what {
         "determinism" => selftest_determinism(args),
+        "oracle" => match vorac::selftest() {
+            Ok(s) => {
+                print!("{s}");
+                0
+            }
+            Err(e) => {
+                eprintln!("HARNESS-ERROR: oracle self-test failed: {e}");
+                2
+            }
+        },
+        "all" => {
+            let a = selftest("oracle", args);
+            let b = selftest_determinism(args);
+            a.max(b)
+        }
         _ => {
             eprintln!("selftest {what}: not implemented yet");
             2
